@@ -9,7 +9,7 @@ if [ "$patch" != "-" ]; then git -C "$W" apply "$patch" || { git -C /repo worktr
 if [ -n "${MUT_CMD:-}" ]; then (cd "$W" && bash -c "$MUT_CMD") || { git -C /repo worktree remove --force "$W"; exit 3; }; fi
 (cd "$W" && GOFLAGS=-mod=mod GOPROXY=off GOSUMDB=off GOTOOLCHAIN=local go build ./... ) || { echo "MUTANT DOES NOT BUILD"; git -C /repo worktree remove --force "$W"; exit 3; }
 for p in "$@"; do
-  VERIF_REPO="$W" VERIF_REPLAY_KEEP=1 /verif/check "$p" 2>&1 | grep -E "^(VIOLATION|KNOWN-FINDING)|\[check\] (batch|violation did not|worker|build failed|watchdog)" | cut -c1-400
+  VERIF_REPO="$W" VERIF_REPLAY_KEEP=1 /verif/check "$p" 2>&1 | grep -E "^(DETAIL|VIOLATION|KNOWN-FINDING)|\[check\] (batch|violation did not|worker|build failed|watchdog)" | cut -c1-400
   echo "$p exit=${PIPESTATUS[0]}"
 done
 git -C /repo worktree remove --force "$W"
